@@ -1385,7 +1385,9 @@ def _ops():
     op('edge_nei_overlap', 'bu', lambda b, A, a: {'EC': b.edge_nei_overlap_bu(A)[0]})
     op('edge_nei_overlap', 'bd', lambda b, A, a: {'EC': b.edge_nei_overlap_bd(A)[0]})
     op('gtom', 'bu', lambda b, A, a: {'gt': b.gtom(A, a[0])}, args=((0,), (1,), (2,), (3,), (4,)), fmt=lambda a: ' steps=%d' % a[0])
-    op('flow_coef_bd', 'bd', lambda b, A, a: (lambda r: {'fc': r[0], 'total_flo': r[2]})(b.flow_coef_bd(A)))
+    op('flow_coef_bd', 'bd', lambda b, A, a: (lambda r: {'fc': r[0], 'total_flo': r[2], 'FC': r[1]})(b.flow_coef_bd(A)), inexact=('FC',))
+    op('rich_club_wu', 'wu', lambda b, A, a: {'Rw': b.rich_club_wu(A)}, pre='has_edge')
+    op('rich_club_wd', 'wd', lambda b, A, a: {'Rw': b.rich_club_wd(A)}, pre='has_edge')
     op('rich_club_bu', 'bu', lambda b, A, a: dict(zip(('R', 'Nk', 'Ek'), b.rich_club_bu(A))))
     op('rich_club_bd', 'bd', lambda b, A, a: dict(zip(('R', 'Nk', 'Ek'), b.rich_club_bd(A))))
     op('assortativity_bin', 'bu', lambda b, A, a: {'r': b.assortativity_bin(A, 0)}, args=((0,),), fmt=lambda a: ' flag=%d' % a[0], inexact=('r',))
@@ -1440,6 +1442,8 @@ def correspondence(ck):
         for cls, A in graphs:
             if cls not in ACCEPT[o['cls']]:
                 continue
+            if o['pre'] == 'has_edge' and not has_edge(A):
+                continue            # np.max of an empty / all-zero degree vector: klevel = 0, nothing to compare
             for a in o['args']:
                 ln = '%s n=%d R=%s%s' % (o['name'], len(A), mat_str(A), o['fmt'](a))
                 if o['pre'] == 'ci':
